@@ -93,7 +93,21 @@ theorem non_ascii_char_refused (cs : List Char) (c : Char) (hc : c ∈ cs) (hna 
 `Prom/Gen/Charsets.lean` is written by `translate/charsets.py` from `src/desc.rs`: every
 `fn _(c: char) -> bool`, the shape of `is_valid_ident` and the predicate each of
 `is_valid_metric_name` / `is_valid_label_name` passes to it, as definitions over `Char` (Unicode scalar
-values). The theorems below tie that output to the hand-written byte-level model used above. -/
+values). The theorems below tie that output to the hand-written byte-level model used above.
+
+`is_valid_ident` may scan the characters of its input (`input.chars()`) or the bytes of its UTF-8
+encoding, each turned into a `char` (`input.bytes().map(char::from)`); the translator records which in
+`Gen.identScansBytes`, and `CharsetsGen.genIdentOkSrc first rest cs` is what the source then computes
+on the string with the characters `cs`: `Gen.genIdentOk first rest` on
+`(cs.flatMap String.utf8EncodeChar).map fun b => Char.ofNat b.toNat` (= `CharsetsGen.bytesAsChars cs`)
+or on `cs` itself. The per-string theorems are stated over it and proved for both values of the flag. -/
+
+/-- `genIdentOkSrc`, spelled out -/
+theorem genIdentOkSrc_def (first rest : Char → Bool) (cs : List Char) :
+    CharsetsGen.genIdentOkSrc first rest cs =
+      if Gen.identScansBytes then
+        Gen.genIdentOk first rest ((cs.flatMap String.utf8EncodeChar).map fun b => Char.ofNat b.toNat)
+      else Gen.genIdentOk first rest cs := rfl
 
 /-- **generated_charsets_known** — the translator recognised every construct it met (an unknown
     method such as `c.is_alphabetic()`, or another shape of `is_valid_ident`, makes this `false`) -/
@@ -122,38 +136,67 @@ theorem generated_metric_rest_iff (c : Char) :
       c.toNat < 128 ∧ (metricStart (UInt8.ofNat c.toNat) || isAsciiDigit (UInt8.ofNat c.toNat)) = true :=
   CharsetsGen.metric_rest_agrees c
 
-/-- the translated metric-name validator, run on the characters of a string, is the model's
+/-- the translated metric-name validator, run on what the source scans (the characters of a string,
+    or the bytes of its UTF-8 encoding as `char`s: `Gen.identScansBytes`), is the model's
     `isValidMetricName` on the bytes of its UTF-8 encoding -/
 theorem generated_metric_ident_agrees (cs : List Char) :
-    Gen.genIdentOk Gen.genMetricFirstOk Gen.genMetricRestOk cs
+    CharsetsGen.genIdentOkSrc Gen.genMetricFirstOk Gen.genMetricRestOk cs
       = isValidMetricName (cs.flatMap String.utf8EncodeChar) :=
-  CharsetsGen.metric_ident_agrees cs
+  CharsetsGen.metric_ident_src_agrees cs
 
 /-- … and likewise for label names -/
 theorem generated_label_ident_agrees (cs : List Char) :
-    Gen.genIdentOk Gen.genLabelFirstOk Gen.genLabelRestOk cs
+    CharsetsGen.genIdentOkSrc Gen.genLabelFirstOk Gen.genLabelRestOk cs
       = isValidLabelName (cs.flatMap String.utf8EncodeChar) :=
-  CharsetsGen.label_ident_agrees cs
+  CharsetsGen.label_ident_src_agrees cs
 
 /-- **generated_ident_agrees** — for every string (list of Unicode scalar values), what the code
-    translated from `src/desc.rs` decides about its characters is what the hand-written model decides
-    about its UTF-8 bytes: for metric names and for label names -/
+    translated from `src/desc.rs` decides about it (scanning its characters, or its UTF-8 bytes as
+    `char`s, whichever the source does) is what the hand-written model decides about its UTF-8 bytes:
+    for metric names and for label names -/
 theorem generated_ident_agrees (cs : List Char) :
-    Gen.genIdentOk Gen.genMetricFirstOk Gen.genMetricRestOk cs
+    CharsetsGen.genIdentOkSrc Gen.genMetricFirstOk Gen.genMetricRestOk cs
       = isValidMetricName (cs.flatMap String.utf8EncodeChar) ∧
-    Gen.genIdentOk Gen.genLabelFirstOk Gen.genLabelRestOk cs
+    CharsetsGen.genIdentOkSrc Gen.genLabelFirstOk Gen.genLabelRestOk cs
       = isValidLabelName (cs.flatMap String.utf8EncodeChar) :=
   ⟨generated_metric_ident_agrees cs, generated_label_ident_agrees cs⟩
 
+/-- the two scans cannot be told apart on the translated predicates: over the UTF-8 bytes as `char`s
+    (what a byte-scanning `is_valid_ident` sees) and over the characters (what a char-scanning one
+    sees) the translated validators answer the same -/
+theorem generated_ident_scan_irrelevant (cs : List Char) :
+    Gen.genIdentOk Gen.genMetricFirstOk Gen.genMetricRestOk
+        ((cs.flatMap String.utf8EncodeChar).map fun b => Char.ofNat b.toNat)
+      = Gen.genIdentOk Gen.genMetricFirstOk Gen.genMetricRestOk cs ∧
+    Gen.genIdentOk Gen.genLabelFirstOk Gen.genLabelRestOk
+        ((cs.flatMap String.utf8EncodeChar).map fun b => Char.ofNat b.toNat)
+      = Gen.genIdentOk Gen.genLabelFirstOk Gen.genLabelRestOk cs :=
+  ⟨CharsetsGen.ident_bytes_eq_chars _ _ CharsetsGen.metric_first_agrees.hiFalse
+      CharsetsGen.metric_rest_agrees.hiFalse cs,
+   CharsetsGen.ident_bytes_eq_chars _ _ CharsetsGen.label_first_agrees.hiFalse
+      CharsetsGen.label_rest_agrees.hiFalse cs⟩
+
 /-- non-vacuity: the translated validators accept `a:b_9` as a metric name, refuse it as a label
-    name, and refuse a name with a non-ASCII letter or digit -/
+    name, and refuse a name with a non-ASCII letter or digit - over what the source scans … -/
+example : CharsetsGen.genIdentOkSrc Gen.genMetricFirstOk Gen.genMetricRestOk "a:b_9".toList = true ∧
+    CharsetsGen.genIdentOkSrc Gen.genLabelFirstOk Gen.genLabelRestOk "a:b_9".toList = false ∧
+    CharsetsGen.genIdentOkSrc Gen.genLabelFirstOk Gen.genLabelRestOk "ab_9".toList = true ∧
+    CharsetsGen.genIdentOkSrc Gen.genMetricFirstOk Gen.genMetricRestOk "é".toList = false ∧
+    CharsetsGen.genIdentOkSrc Gen.genMetricFirstOk Gen.genMetricRestOk "a٣".toList = false ∧
+    CharsetsGen.genIdentOkSrc Gen.genMetricFirstOk Gen.genMetricRestOk "9a".toList = false ∧
+    CharsetsGen.genIdentOkSrc Gen.genMetricFirstOk Gen.genMetricRestOk [] = false := by decide +kernel
+
+/-- … and over each of the two scans, whatever the flag says (`é` is the two elements U+00C3 U+00A9
+    in the byte scan, `aé` starts well and is refused at the second element) -/
 example : Gen.genIdentOk Gen.genMetricFirstOk Gen.genMetricRestOk "a:b_9".toList = true ∧
-    Gen.genIdentOk Gen.genLabelFirstOk Gen.genLabelRestOk "a:b_9".toList = false ∧
-    Gen.genIdentOk Gen.genLabelFirstOk Gen.genLabelRestOk "ab_9".toList = true ∧
+    Gen.genIdentOk Gen.genMetricFirstOk Gen.genMetricRestOk (CharsetsGen.bytesAsChars "a:b_9".toList) = true ∧
+    Gen.genIdentOk Gen.genLabelFirstOk Gen.genLabelRestOk (CharsetsGen.bytesAsChars "a:b_9".toList) = false ∧
+    CharsetsGen.bytesAsChars "é".toList = [Char.ofNat 0xC3, Char.ofNat 0xA9] ∧
     Gen.genIdentOk Gen.genMetricFirstOk Gen.genMetricRestOk "é".toList = false ∧
-    Gen.genIdentOk Gen.genMetricFirstOk Gen.genMetricRestOk "a٣".toList = false ∧
-    Gen.genIdentOk Gen.genMetricFirstOk Gen.genMetricRestOk "9a".toList = false ∧
-    Gen.genIdentOk Gen.genMetricFirstOk Gen.genMetricRestOk [] = false := by decide +kernel
+    Gen.genIdentOk Gen.genMetricFirstOk Gen.genMetricRestOk (CharsetsGen.bytesAsChars "é".toList) = false ∧
+    Gen.genIdentOk Gen.genMetricFirstOk Gen.genMetricRestOk (CharsetsGen.bytesAsChars "aé".toList) = false ∧
+    Gen.genIdentOk Gen.genMetricFirstOk Gen.genMetricRestOk (CharsetsGen.bytesAsChars "a٣".toList) = false := by
+  decide +kernel
 
 /-- label names are metric names without `:` — so the same ASCII-only conclusion holds -/
 theorem label_is_metric_name {s : Str} (h : isValidLabelName s = true) : isValidMetricName s = true := by
